@@ -6,6 +6,8 @@ individual at vartheta_i (relational), the reference densities, complex-step
 gradients; beta names by perturbation observed through a tap on the
 underlying model's public methods.
 """
+import functools
+
 import numpy as np
 
 from harness.bootstrap import load_chi
@@ -64,6 +66,7 @@ def _patch():
         cls = getattr(chi, cname)
         orig = cls.compute_log_likelihood
 
+        @functools.wraps(orig)
         def wrapped(self, parameters, observations, *a, _orig=orig, **k):
             if _TAP['on']:
                 _TAP['args'].append(np.array(parameters, dtype=float))
